@@ -91,3 +91,49 @@ else:
     s = s[:m8.start()] + sec7 + "\n" + s[m8.start():]
 open(p, "w", encoding="utf-8").write(s)
 print("DESIGN.md: §7.1 regenerated,", len(seen), "known,", len(bycommit), "fix commits")
+
+# 4. false-alarm experiments (refactors/*)
+rrows = []
+for d in sorted(glob.glob(os.path.join(ROOT, "refactors", "*"))):
+    rp = os.path.join(d, "result.txt")
+    if not os.path.exists(rp):
+        continue
+    meta = {}
+    if os.path.exists(os.path.join(d, "meta.json")):
+        try:
+            meta = json.load(open(os.path.join(d, "meta.json")))
+        except Exception:
+            meta = {}
+    res = []
+    for l in open(rp):
+        m = re.match(r"^(C\d\d): (.*)$", l.strip())
+        if m:
+            alarm = "VIOLATION" in m.group(2)
+            nf = "no-failing-input-found" in m.group(2)
+            res.append("%s %s" % (m.group(1), ("**alarm (obligation broken, no failing input)**" if nf else "**ALARM**") if alarm else "green"))
+    summ = " ".join(str(meta.get("summary", "")).split())
+    if len(summ) > 260:
+        summ = summ[:257] + "…"
+    follow = ""
+    fp = os.path.join(d, "followup.txt")
+    if os.path.exists(fp):
+        follow = " ".join(open(fp).read().split())
+    rrows.append("| %s | %s | %s | %s |" % (os.path.basename(d), summ.replace("|", "\\|"), "; ".join(res), follow.replace("|", "\\|")))
+sec12 = "\n".join([
+    "## 12. False-alarm experiments: behaviour-preserving refactors", "",
+    "Independent agents (property text + scratch worktree only) wrote realistic behaviour-preserving refactors of the",
+    "anchored files (renames, extracted/inlined helpers, reordered independent statements, loops rewritten, error and log",
+    "wording changed, buffers handled differently; suite passes unedited). `lib/try_refactor.sh` runs every check whose",
+    "property is anchored in a changed package against the refactored tree; all must stay green. `alarm (obligation broken,",
+    "no failing input)` is the brief's `VIOLATION … no-failing-input-found` case — a translator or a model/implementation",
+    "projection that the rewrite disturbed; each such case was analysed and the machinery corrected (last column).",
+    "Files: `refactors/<name>/{patch.diff, meta.json, result.txt}`.", "",
+    "| refactor | what was changed | checks run → result (first run) | follow-up |", "|---|---|---|---|"] + rrows + [""])
+s = open(p, encoding="utf-8").read()
+pat12 = re.compile(r"^## 12\. False-alarm experiments.*?(?=^## \d+\. |\Z)", re.S | re.M)
+if pat12.search(s):
+    s = pat12.sub(lambda m: sec12 + "\n", s)
+else:
+    s = s.rstrip("\n") + "\n\n" + sec12 + "\n"
+open(p, "w", encoding="utf-8").write(s)
+print("DESIGN.md: §12 regenerated,", len(rrows), "refactors")
